@@ -556,12 +556,31 @@ func generateShardingSQLs(stmt ast.StmtNode, result *RouteResult, router *router
 			ret[sliceName] = sliceSQLs
 		}
 
+		// a global table without an explicit database list has several table indexes per
+		// slice that all name the same physical copy (slice, db): send the statement once
+		if isGlobalTableRule(rule) && containsString(sliceSQLs[dbName], sb.String()) {
+			continue
+		}
+
 		ret[sliceName][dbName] = append(ret[sliceName][dbName], sb.String())
 	}
 
 	result.Reset() // must reset the cursor for next call
 
 	return ret, nil
+}
+
+func isGlobalTableRule(rule router.Rule) bool {
+	return rule.GetType() == router.GlobalTableRuleType
+}
+
+func containsString(list []string, s string) bool {
+	for _, v := range list {
+		if v == s {
+			return true
+		}
+	}
+	return false
 }
 
 // 根据多个StmtNode和路由信息生成分片SQL，适用于 batch insert
